@@ -37,17 +37,21 @@ def register(check, not_yet):
           "SMT bounded model checking (z3), symbolic schedule; PySym for Future", "DESIGN.md section 4 C13", "B:pysym")
     check("C07", "other",
           "Bounded symbolic verification: for each pipeline (every listed function alone in all five application forms, sampled "
-          "pairs/triples via comp) CrossHair runs the core functions compiled from core.lpy on a symbolic input list "
-          "(nil/bool/int elements, symbolic numeric parameter) and compares with an 18-function Python reference; "
-          "PROVED = path tree exhausted. Early termination (input pulls) and completion-exactly-once are separate obligations.",
-          "Bound: input length <= 2 (quick) / 4 (thorough); pipeline shapes enumerated/sampled by VERIF_SEED, not solver-chosen. "
+          "pairs/triples via comp) CrossHair runs the core functions compiled from core.lpy on every input list over the property's element "
+          "universe {nil, false, true, 0, 1, 2, :a} up to the length bound (solver-chosen codes) with a symbolic numeric parameter and compares "
+          "with an 18-function Python reference; PROVED = path tree exhausted. Separate obligation families: input pulls of <f>+take on a counting "
+          "iterator for every function (early termination), completion exactly once, one transducer value applied five times (state per application), "
+          "infinite inputs. distinct on inputs containing a boolean together with the number equal to it is a recorded finding isolated in its own obligations.",
+          "Bound: input length <= 2 (quick) / 3 (thorough); pipeline shapes enumerated/sampled by VERIF_SEED, not solver-chosen. "
           "Native LazySeq/Cons run concretely. Obligations CrossHair cannot exhaust in the time budget are reported INCONCLUSIVE.",
           "CrossHair (z3) symbolic execution of the compiled core library vs reference model", "DESIGN.md section 4 C07", "A:crosshair")
     check("C11", "other",
           "Bounded symbolic verification of the binding kernel: runtime.push_thread_bindings / pop_thread_bindings / "
           "Var.push_bindings / RefBase._validate are interpreted by PySym from an arbitrary valid pre-state with the binding map's "
           "iteration order, each Var's dynamic flag and each validator's verdict as solver choices; z3 decides that a push either "
-          "succeeds completely or leaves every stack untouched, and that push+pop restores the state.",
+          "succeeds completely or leaves every stack untouched, and that push+pop restores the state. 14 programs over binding / with-bindings* / "
+          "bound-fn* / get-thread-bindings / set! (incl. captures taken before and after a set!) run under CrossHair with symbolic values against "
+          "hand-computed visibility tables; one concrete run with real threads and futures.",
           "Cross-thread visibility and conveyance to futures are outside (threading.local / executors are environment). "
           "Refutations are replayed on the real runtime by re-creating Vars until the real map iterates in the model's order.",
           "SMT (z3) over a symbolic interpretation of the real Python ASTs with symbolic map iteration order", "DESIGN.md section 4 C11", "B:pysym")
@@ -55,8 +59,9 @@ def register(check, not_yet):
           "Bounded symbolic verification of the real reader under CrossHair: input is a solver-chosen string over the delimiter/"
           "dispatch alphabet (and a fully symbolic Unicode string in the thorough tier); totality (only SyntaxError with line/col, only "
           "Lisp data in forms), EOF classification (metamorphic, real reader only), true spans (re-reading the span text gives an "
-          "equal form) and the StreamReader's peek/loc bookkeeping against a reference.",
-          "Bound: length <= 2-3 (quick) / 3-5 (thorough) per obligation family; obligations are split by first character for parallelism.",
+          "equal form), LF = CR = CRLF renderings of one token string read alike, token-level totality for dispatch macros and reader conditionals "
+          "(character alphabets of this length cannot spell them), and the StreamReader's peek/loc bookkeeping against a reference.",
+          "Bound: length <= 2-3 characters / 2-4 tokens (quick), 3-5 (thorough) per obligation family; obligations are split by first character or token for parallelism.",
           "CrossHair (z3) symbolic execution of reader.py", "DESIGN.md section 4 C16", "A:crosshair")
     check("C19", "other",
           "Bounded symbolic verification of the compiled bencode/EDN/JSON namespaces under CrossHair: encode == reference encoder, "
@@ -90,14 +95,15 @@ def register(check, not_yet):
           "classes. Each sat model is replayed through the real compiler: (def a 1) (def b 2) a => 2, in both linking modes.",
           "Bound: |a| <= 2-3, |b| <= |a|-1+len(replacement), every code point a symbol may contain. The collision classes are recorded "
           "known findings (munge is non-injective by design); a collision outside them is a violation. def/alias/refer/redef histories (incl. def inside called, nested and async functions) are "
-          "one exhaustive concrete run of 600 two-step histories x 3 option sets, labelled as not solver-decided in the evidence.",
+          "one exhaustive concrete run of 864 two-step histories x 3 option sets (incl. re-marking an already-read Var as ^:redef / ^:dynamic), labelled as not solver-decided in the evidence.",
           "SMT (z3 LIA) over a symbolic interpretation of the real munge AST, flattened string encoding", "DESIGN.md section 4 C10", "B:pysym")
     check("C03", "other",
           "Bounded symbolic verification of the real printer and reader under CrossHair: print -> read -> compare (one form, equal, same "
           "type, deterministic, same text when re-printed) for every string up to the length bound over an escape-relevant alphabet "
           "(solver-chosen indices, exhaustive), symbolic ints/ratios/bytes, boundary floats, decimals under *print-dup*, imaginary "
           "numbers, keywords/symbols, collection shapes with symbolic leaves under a symbolic *print-namespace-maps*, metadata under "
-          "*print-meta*, UUID/regex; two recorded findings (regex backslashes, #py dict key order) are isolated in their own obligations.",
+          "*print-meta*, UUID/regex, and every scalar kind (special and boundary floats, ratio, imaginary, big int, strings with escapes, keyword, "
+          "symbol, uuid, regex, bytes) as a direct element of every container incl. #py collections and seqs; two recorded findings (regex backslashes, #py dict key order) are isolated in their own obligations.",
           "Bound: strings <= 2 (quick) / 3 (thorough) over 23 characters; ints realised by str(); #inst not checked. "
           "Reader line/col metadata is stripped before comparing re-printed text.",
           "CrossHair (z3) symbolic execution of obj.lrepr / reader.read_str", "DESIGN.md section 4 C03", "A:crosshair")
@@ -117,7 +123,7 @@ def register(check, not_yet):
           "Same pipeline with effect markers: (t :k v) appends :k to a trace and returns a symbolic parameter, so branch choices, "
           "catch clauses and loop counts are solver-decided; the compiled program's trace and result must equal the reference "
           "evaluator's (left-to-right, exactly once, never on untaken branches) over 16 enclosing forms (incl. loop and fn-arity recur) x argument position x 5 "
-          "compound sibling kinds plus macro/interop/operator programs.",
+          "compound sibling kinds (incl. host property reads and method calls on an effectful target) plus if / when / and-or test positions and macro/interop/operator programs.",
           "Shapes enumerated; the quick tier takes 3 seeded (position, kind) combinations of every enclosing form. The recorded hoisting finding is matched only when every marker ran exactly once "
           "and the value is right (trace is a permutation); any other trace difference is a violation.",
           "CrossHair (z3) symbolic execution of compiler output vs reference evaluator traces", "DESIGN.md section 4 C02", "A:crosshair")
@@ -149,7 +155,8 @@ def register(check, not_yet):
           "8 hand-written patterns + generated patterns over the documented vocabulary (vlib/props/c09_grammar.py: every key style x "
           "false/nil/0/computed :or defaults, quoted-symbol/string/int keys, keyword-argument rests, nesting <= 3; 24 quick / 70 thorough) "
           "checked against a compositional reference built on the real nth/nthnext/get for conforming, short, over-long, lazy, nil and wrongly "
-          "typed values; 4 syntax-quote templates (fixed). The reader is given runtime.resolve_alias as resolver, as the importer and REPL do.",
+          "typed values; 4 fixed + 16 quick / 48 thorough generated syntax-quote templates (vlib/props/c09_sq.py: symbols of every kind, unquote, splice, "
+          "all four collection types, a template nested inside an unquote) matched structurally with gensyms as per-template placeholders. The reader is given runtime.resolve_alias as resolver, as the importer and REPL do.",
           "CrossHair (z3) symbolic execution of compiled destructuring / syntax-quote forms vs nth/get oracle", "DESIGN.md section 4 C09", "A:crosshair")
     check("C14", "other",
           "Partial, bounded symbolic verification: (1) importer._get_basilisp_bytecode is interpreted by PySym over a symbolic byte "
@@ -166,7 +173,8 @@ def register(check, not_yet):
     check("C06", "exploration",
           "Single-threaded consumption histories only: CrossHair chooses a consumption program (first/rest/next/seq on any cell "
           "obtained so far) and the sequence length, for lazy-seq, map, filter, concat (1+n and 2+2), mapcat, lazy-cat, "
-          "iterate and seqs over Python iterables, with one obligation per index at which the element producer throws, compiled from core.lpy and driving the real native LazySeq/Cons; an offset model says "
+          "iterate and seqs over Python iterables, with one obligation per index at which the element producer throws, and a second consumer vocabulary "
+          "(rest, iter()/next() once or twice, nth) for the Python iteration protocol, compiled from core.lpy and driving the real native LazySeq/Cons; an offset model says "
           "what each access must return, that each producer index runs at most once (twice for the index that threw), that nothing "
           "beyond the demanded index is produced, and that an exception does not corrupt the sequence. The native module is rebuilt "
           "from /repo/rust (cargo, offline) and the fresh build is used when it differs from the installed .so.",
@@ -180,6 +188,6 @@ def register(check, not_yet):
           "(so a mutation of an earlier version, e.g. through a transient, is caught); with-meta must give an equal, equal-hash value "
           "carrying exactly the given metadata and leave the original's metadata alone.",
           "Weakest kind of claim in this family: the C cores of pyrsistent / immutables run concretely; history length 2 (quick, keys incl. nil, "
-          "values 0/nil) / 3 (thorough) plus every single operation on the full domain (values 0/nil/false compared strictly), from seeds of 0, 3, 4 "
+          "values 0/nil) / 3 (thorough), operations incl. the variadic forms (two keys / pairs / elements per call), plus every single operation on the full domain (values 0/nil/false compared strictly), from seeds of 0, 3, 4 "
           "(shared hash bits) or 34 elements. Metadata of derived values (pop, into, ...) is not prescribed by the property and not checked.",
           "CrossHair (z3) exploration of solver-chosen operation histories vs a Python model", "DESIGN.md section 4 C04", "A:crosshair")
